@@ -75,13 +75,20 @@ func ceilDiv(a, b int64) int64 { return (a + b - 1) / b }
 
 // ---------------------------------------------------------------- grammar
 
-var pieceLens = []int64{16384, 16384, 32768, 32768, 65536, 262144, 1 << 20, 0, 1, 16383, 16385, 1 << 31, 1<<32 - 16384, 1 << 32, 49152}
+var pieceLens = []int64{16384, 32768, 65536, 262144, 1 << 20, 3 * CS, 5 * CS, 6 * CS, 7 * CS, 9 * CS, 48 * CS, 100 * CS, 0, 1, 16383, 16385, 1 << 31, 1<<32 - 16384, 1 << 32}
 
 func pickLen(r *vhlib.Rand, pl int64) int64 {
 	if pl <= 0 {
 		pl = 16384
 	}
-	switch r.Intn(14) {
+	switch r.Intn(17) {
+	case 14: // every residue class of the short last piece: k blocks, 1 byte, pl-1, k blocks + a bit
+		q := int64(r.Intn(6)) * pl
+		return q + []int64{CS * int64(r.Intn(int(pl/CS)+1)), 1, pl - 1, CS*int64(r.Intn(int(pl/CS)+1)) + int64(r.Intn(CS)), CS}[r.Intn(5)]
+	case 15: // above 4 GiB (the piece table is only built when it stays small)
+		return 1<<32 + int64(r.Intn(5))*pl + []int64{0, 1, 20000, pl - 1, CS}[r.Intn(5)]
+	case 16:
+		return 2*pl + 20000
 	case 0:
 		return 0
 	case 1:
@@ -163,7 +170,7 @@ func encFile(r *vhlib.Rand, length int64) string {
 func genInfo(r *vhlib.Rand) string {
 	pl := pieceLens[r.Intn(len(pieceLens))]
 	if r.Chance(55) {
-		pl = pieceLens[r.Intn(7)]
+		pl = pieceLens[r.Intn(12)]
 	}
 	var kvs []kv
 	var total int64
@@ -209,7 +216,7 @@ func genInfo(r *vhlib.Rand) string {
 	if pl > 0 && total > 0 && total < 1<<40 {
 		np = ceilDiv(total, pl)
 	}
-	if np > 4000 {
+	if np > 6000 {
 		np = int64(r.Intn(3)) // never build a big table: such a torrent is rejected
 	}
 	switch r.Intn(12) {
@@ -419,6 +426,100 @@ func strictDict(b []byte, i int, depth int, want string) ([]int, int) {
 	return found, j + 1
 }
 
+// ---------------------------------------------------------------- a dictionary delivered twice through the magnet path
+
+const magnetDN = "magnet-dn"
+
+// traceOf: which of the fields MetadataComplete assigns differ from a fresh magnet torrent
+func traceOf(t *tor.Torrent) string {
+	var l []string
+	if t.Pieces.Num() != 0 || t.Pieces.Length() != 0 || t.Pieces.PieceSize() != 0 {
+		l = append(l, "pieces")
+	}
+	if len(t.VerifInFlight()) != 0 {
+		l = append(l, "inflight")
+	}
+	if len(t.PieceHashes) != 0 {
+		l = append(l, "hashes")
+	}
+	if t.Files != nil {
+		l = append(l, "files")
+	}
+	if t.Name != magnetDN {
+		l = append(l, "name")
+	}
+	if t.InfoComplete() {
+		l = append(l, "complete")
+	}
+	return joinOr(l)
+}
+
+// deliverTwice: a magnet torrent receives the dictionary block by block through the real
+// gotMetadata; a rejected one is delivered a second time.  Returns the observation line.
+func deliverTwice(c *vhlib.Ctx, info []byte) string {
+	h := sha1.Sum(info)
+	var t *tor.Torrent
+	if guard(c, "ReadMagnet", func() {
+		t, _ = tor.ReadMagnet("", "magnet:?dn="+magnetDN+"&xt=urn:btih:"+hex.EncodeToString(h[:]))
+		tor.VerifInit(t, 16, 1)
+	}) || t == nil {
+		return "panic"
+	}
+	round := func() string {
+		var done bool
+		var err error
+		p := vhlib.Recover(func() {
+			tor.VerifMetadataVote(t, uint32(len(info)))
+			tor.VerifRequestMetadata(t, nil)
+			for i := 0; i*CS < len(info); i++ {
+				e := (i + 1) * CS
+				if e > len(info) {
+					e = len(info)
+				}
+				done, err = tor.VerifGotMetadata(t, uint32(i), uint32(len(info)), append([]byte(nil), info[i*CS:e]...))
+			}
+		})
+		switch {
+		case p != "":
+			c.Violate("panic:MetadataComplete-via-magnet:"+panicCause(p), p, c.Case())
+			return "panic"
+		case done:
+			return "ok"
+		case err == nil:
+			return "incomplete"
+		}
+		tr := "?"
+		guard(c, "Torrent-accessors", func() { tr = traceOf(t) })
+		tag := metaline.ErrTag(err)
+		if tr != "-" {
+			c.Violate("reject:leaves-trace:"+strings.ReplaceAll(tr, ",", "+"), fmt.Sprintf("the dictionary was rejected (%v) but the torrent keeps: %s", err, tr), c.Case())
+		}
+		return "err " + tag + " trace=" + tr
+	}
+	r1 := round()
+	if !strings.HasPrefix(r1, "err ") {
+		return r1
+	}
+	r2 := round()
+	if r2 != r1 && !strings.HasPrefix(r2, "panic") {
+		c.Violate("reject:second-delivery-differs", r1+" then "+r2, c.Case())
+	}
+	return r1 + " | " + r2
+}
+
+// failWriter accepts k bytes and then fails (a client that disconnects part-way)
+type failWriter struct{ k int }
+
+func (w *failWriter) Write(p []byte) (int, error) {
+	if len(p) <= w.k {
+		w.k -= len(p)
+		return len(p), nil
+	}
+	n := w.k
+	w.k = 0
+	return n, fmt.Errorf("connection reset by peer")
+}
+
 // ---------------------------------------------------------------- one metainfo case
 
 func panicCause(p string) string {
@@ -578,6 +679,31 @@ func checkGeometry(c *vhlib.Ctx, t *tor.Torrent, ops []string) {
 	if int64(len(t.VerifInFlight())) != ceilDiv(length, CS) {
 		bad("inflight-slots", fmt.Sprintf("%d slots for length %d", len(t.VerifInFlight()), length))
 	}
+	if np := t.Pieces.Num(); np > 0 && np <= 20000 {
+		var spl, sblk int64
+		for i := 0; i < np; i++ {
+			pli := int64(t.Pieces.PieceLength(uint32(i)))
+			if i < np-1 && pli != ps {
+				bad("piece-store:inner-piece-not-full", fmt.Sprintf("PieceLength(%d) = %d, piece size %d", i, pli, ps))
+				break
+			}
+			if i == np-1 && (pli <= 0 || pli > ps) {
+				bad("piece-store:last-piece-out-of-range", fmt.Sprintf("PieceLength(%d) = %d, piece size %d", i, pli, ps))
+			}
+			spl += pli
+			n, _ := t.Pieces.PieceBitmap(uint32(i))
+			sblk += int64(n)
+		}
+		if spl != length {
+			bad("piece-store:pieces-do-not-sum-to-length", fmt.Sprintf("sum of PieceLength %d, length %d, piece size %d", spl, length, ps))
+		}
+		if sblk != int64(len(t.VerifInFlight())) {
+			bad("piece-store:blocks-differ-from-inflight-slots", fmt.Sprintf("%d blocks in the piece store, %d inFlight slots", sblk, len(t.VerifInFlight())))
+		}
+		if t.Pieces.PieceLength(uint32(np)) != 0 {
+			bad("piece-store:piece-beyond-end", fmt.Sprint(t.Pieces.PieceLength(uint32(np))))
+		}
+	}
 	if int64(t.Pieces.Num()) != ceilDiv(length, ps) {
 		bad("piece-count", fmt.Sprintf("%d pieces for length %d piece length %d", t.Pieces.Num(), length, ps))
 	}
@@ -650,6 +776,11 @@ func runFile(c *vhlib.Ctx, b []byte, expInfo *string, class string) {
 			}
 		}
 		c.Emit("mc 0 "+metaline.BInfoTokens(&bi), o)
+		// the same dictionary as a magnet's metadata, delivered through gotMetadata: every
+		// rejected one twice, one accepted one in four once
+		if p == "" && ((t == nil && err != nil && metaline.ErrTag(err) != "") || (t != nil && len(b)%4 == 0)) {
+			c.Emit("mc2 "+vhlib.Hex([]byte(magnetDN))+" 0 "+metaline.BInfoTokens(&bi), deliverTwice(c, bt.Info))
+		}
 		for _, f := range bi.Files {
 			if (f.Path != nil && len(f.Path) == 0) || (f.Path8 != nil && len(f.Path8) == 0) {
 				c.Violate("decoder-contract:empty-non-nil-path", "zeebo returned an empty non-nil path list", c.Case())
@@ -714,9 +845,52 @@ func runFile(c *vhlib.Ctx, b []byte, expInfo *string, class string) {
 	if fn != "" {
 		c.Violate("panic:"+fn+":"+panicCause(msg), "on a torrent ReadTorrent accepted: "+msg, c.Case())
 	}
+	// WriteTorrent under writer faults and repetition: the Go function is expected to be a
+	// pure function of the torrent (the model's writeTorrentBytes is) — whatever earlier
+	// calls did, a call that returns nil has written the whole file
 	var buf bytes.Buffer
 	var werr error
-	wp := vhlib.Recover(func() { werr = tor.WriteTorrent(&buf, t) })
+	var wp string
+	if plan := len(b) % 6; plan >= 2 {
+		// a twin of the torrent tells us what a clean first write produces
+		var ref bytes.Buffer
+		var twin *tor.Torrent
+		vhlib.Recover(func() {
+			twin, _ = tor.ReadTorrent("", bytes.NewReader(b))
+			if twin != nil && tor.WriteTorrent(&ref, twin) != nil {
+				ref.Reset()
+			}
+		})
+		if L := ref.Len(); L > 0 {
+			ks := [][]int{{0}, {1}, {L / 2}, {L - 1, 1, L / 3}}[plan-2]
+			for _, k := range ks {
+				var ferr error
+				fp := vhlib.Recover(func() { ferr = tor.WriteTorrent(&failWriter{k: k}, t) })
+				if fp != "" {
+					c.Violate("panic:WriteTorrent:"+panicCause(fp), "with a writer that fails after "+strconv.Itoa(k)+" bytes: "+fp, c.Case())
+					return
+				}
+				if ferr == nil {
+					c.Violate("roundtrip:write-error-swallowed", fmt.Sprintf("the writer failed after %d of %d bytes and WriteTorrent returned nil", k, L), c.Case())
+				}
+			}
+			c.Count("write-faults/"+strconv.Itoa(plan), "", false)
+		}
+		wp = vhlib.Recover(func() { werr = tor.WriteTorrent(&buf, t) })
+		if wp == "" && werr == nil && ref.Len() > 0 && !bytes.Equal(buf.Bytes(), ref.Bytes()) {
+			c.Violate("roundtrip:write-after-fault-differs", fmt.Sprintf("after aborted writes WriteTorrent returned nil with %d bytes; a clean write gives %d bytes", buf.Len(), ref.Len()), c.Case())
+		}
+	} else {
+		wp = vhlib.Recover(func() { werr = tor.WriteTorrent(&buf, t) })
+		var again bytes.Buffer
+		if wp == "" && werr == nil {
+			var aerr error
+			ap := vhlib.Recover(func() { aerr = tor.WriteTorrent(&again, t) })
+			if ap != "" || aerr != nil || !bytes.Equal(again.Bytes(), buf.Bytes()) {
+				c.Violate("roundtrip:write-not-repeatable", ap+fmt.Sprint(aerr), c.Case())
+			}
+		}
+	}
 	if wp != "" {
 		c.Violate("panic:WriteTorrent:"+panicCause(wp), wp, c.Case())
 		return
